@@ -190,7 +190,7 @@ Theorem C06_outcome_output_unfold :
     (forall g gs, groups_expect (o:=o) D (g :: gs) F = wsum o (D g) (fun s => gexp (o:=o) D gs s F)) /\
     (forall g gs acc, gexp (o:=o) D (g :: gs) acc F = wsum o (D g) (fun s => gexp (o:=o) D gs (zip_add acc s) F)) /\
     (forall acc, gexp (o:=o) D [] acc F = F acc).
-Proof. exact (fun K o D n raw F => conj eq_refl (conj (fun _ _ => eq_refl) (conj (fun _ _ _ => eq_refl) (fun _ => eq_refl)))). Qed.
+Proof. exact (fun K => @outcome_output_unfold K). Qed.
 Print Assumptions C06_outcome_output_unfold.
 
 (* ---- output distribution is normalised when the backend's distributions are ---- *)
@@ -260,6 +260,32 @@ Theorem C06_remap_keys :
     In x (dkeys (remap o d)) <-> exists e, In e d /\ x = relabel (fst e).
 Proof. exact (fun K => @remap_keys K). Qed.
 Print Assumptions C06_remap_keys.
+
+(* ---- zero indistinguishability gives classical particles ---- *)
+(* an input whose labels are pairwise distinct consists of one single-photon group per photon *)
+Theorem C06_distinct_labels_single_photon_groups :
+  forall n_modes (a : astate),
+    NoDup (concat a) -> concat a <> [] ->
+    decompose n_modes a = map (group_state a) (concat a) /\
+    Forall (fun g => st_n_photons g = 1%Z) (decompose n_modes a) /\
+    length (decompose n_modes a) = an_n_photons a.
+Proof. exact decompose_distinct. Qed.
+Print Assumptions C06_distinct_labels_single_photon_groups.
+
+(* with p_i = 0 every per-photon outcome vector either has weight 0 (it would need the shared label 0)
+   or all its labels are pairwise distinct; by C06_mixture_spec and C06_groups_are_independent the
+   output is then a mixture of convolutions of single-photon distributions *)
+Theorem C06_zero_indistinguishability_classical :
+  forall {K} (o : ops K) (SR : StarRing o) (nu p2 : K) n_modes (st : state) e,
+    In e (state_outcomes o nu (k0 o) p2 st 1%Z) ->
+    snd e = k0 o \/
+    (let a := an_make (fst e) in
+     NoDup (concat a) /\
+     (concat a <> [] ->
+      Forall (fun g => st_n_photons g = 1%Z) (decompose n_modes a) /\
+      length (decompose n_modes a) = an_n_photons a)).
+Proof. exact (fun K o SR => @zero_indist_single_photon_groups K o SR). Qed.
+Print Assumptions C06_zero_indistinguishability_classical.
 
 (* ---- Hong-Ou-Mandel ---- *)
 (* any beam splitter (r = c^2, t = s^2), brightness 1, purity 1:
